@@ -51,3 +51,15 @@ fn test_lifetime_outlives() {
         }
     );
 }
+
+#[test]
+fn test_erased_lifetime() {
+    // Test the erased lifetime is printed in the form the parser accepts.
+    reparse_test!(
+        program {
+            struct Foo<'a> where 'a: 'erased { }
+            trait Baz {}
+            impl Baz for &'erased Foo<'erased> { }
+        }
+    );
+}
